@@ -423,8 +423,76 @@ Example seek_example :
   /\ seek_next id_codec 4096 f 35 = Err EOF.
 Proof. vm_compute. repeat split; reflexivity. Qed.
 
+(* F-C04e: the documented promise "SeekNext returns the first record that STARTS at or after the
+   offset" is false: a payload may contain the complete image of a record (marker, nil flag, sizes,
+   correct header checksum, payload).  Witness: uncompressed file with the three records
+   "first", "xx" ++ IMAGE ++ "yy", "third", where IMAGE = enc_rec of the record "inner"; seeking
+   from offset 25 (one byte into the second record) returns (37, "inner") - offset 37 lies inside the
+   second record's payload and no record was written there - although the written record "third"
+   starts at 55 >= 25. *)
+From GoSST Require Import RecordIO.WriteReadFacts.
+
+Definition emb_first : bytes := [0x66; 0x69; 0x72; 0x73; 0x74].      (* "first" *)
+Definition emb_inner : bytes := [0x69; 0x6e; 0x6e; 0x65; 0x72].      (* "inner" *)
+Definition emb_third : bytes := [0x74; 0x68; 0x69; 0x72; 0x64].      (* "third" *)
+Definition emb_image : bytes := enc_rec SeekFacts.id_codec (Some emb_inner).
+Definition emb_middle : bytes := [0x78; 0x78] ++ emb_image ++ [0x79; 0x79].   (* "xx" IMAGE "yy" *)
+Definition emb_ops : list wop :=
+  [WWrite (Some emb_first); WWrite (Some emb_middle); WWrite (Some emb_third)].
+
+Example emb_image_bytes :
+  emb_image = [0x91; 0x8d; 0x4c; 0; 5; 0; 0xf3; 0xd7; 0x9d; 0xe3; 0x06; 0x69; 0x6e; 0x6e; 0x65; 0x72].
+Proof. vm_compute. reflexivity. Qed.
+
+Example emb_file_bytes :
+  written SeekFacts.id_codec emb_ops =
+    [4; 0; 0; 0; 0; 0; 0; 0;
+     0x91; 0x8d; 0x4c; 0; 5; 0; 0xf3; 0xd7; 0x9d; 0xe3; 0x06; 0x66; 0x69; 0x72; 0x73; 0x74;
+     0x91; 0x8d; 0x4c; 0; 20; 0; 0x85; 0x84; 0x80; 0x80; 0x04; 0x78; 0x78;
+       0x91; 0x8d; 0x4c; 0; 5; 0; 0xf3; 0xd7; 0x9d; 0xe3; 0x06; 0x69; 0x6e; 0x6e; 0x65; 0x72;
+       0x79; 0x79;
+     0x91; 0x8d; 0x4c; 0; 5; 0; 0xf3; 0xd7; 0x9d; 0xe3; 0x06; 0x74; 0x68; 0x69; 0x72; 0x64]
+  /\ surv SeekFacts.id_codec emb_ops = [(8, Some emb_first); (24, Some emb_middle); (55, Some emb_third)].
+Proof. vm_compute. split; reflexivity. Qed.
+
+Theorem seek_next_embedded_refuted :
+  exists (c : codec) (ops : list wop) (seekLen off o : N) (r : option bytes),
+    (forall x, decomp c (comp c x) = Ok x) /\ ctype c <= 3
+    /\ prog_ok c ops 8 [] = true /\ Forall (op_ok c) ops
+    /\ 4 <= seekLen /\ off <= lenN (written c ops)
+    /\ seek_next c seekLen (written c ops) off = Ok (o, r)
+    (* what is returned is not one of the records that were written *)
+    /\ ~ In o (map fst (surv c ops))
+    (* although a written record starts at or after off *)
+    /\ (exists o' r', In (o', r') (surv c ops) /\ off <= o').
+Proof.
+  exists SeekFacts.id_codec, emb_ops, 4, 25, 37, (Some emb_inner).
+  split; [intros x; reflexivity|].
+  split; [vm_compute; discriminate|].
+  split; [vm_compute; reflexivity|].
+  split.
+  { repeat constructor; vm_compute; reflexivity. }
+  split; [vm_compute; discriminate|].
+  split; [vm_compute; discriminate|].
+  split; [vm_compute; reflexivity|].
+  split.
+  - replace (map fst (surv SeekFacts.id_codec emb_ops)) with [8; 24; 55] by (vm_compute; reflexivity).
+    intros [H|[H|[H|[]]]]; discriminate H.
+  - exists 55, (Some emb_third). split.
+    + replace (surv SeekFacts.id_codec emb_ops)
+        with [(8, Some emb_first); (24, Some emb_middle); (55, Some emb_third)] by (vm_compute; reflexivity).
+      right. right. left. reflexivity.
+    + vm_compute. discriminate.
+Qed.
+
+(* the same for the large scan window *)
+Example seek_next_embedded_4096 :
+  seek_next SeekFacts.id_codec 4096 (written SeekFacts.id_codec emb_ops) 25 = Ok (37, Some emb_inner).
+Proof. vm_compute. reflexivity. Qed.
+
 Print Assumptions marker_no_self_overlap.
 Print Assumptions seek_next_first.
 Print Assumptions seek_next_window_independent.
 Print Assumptions seek_next_written.
 Print Assumptions seek_example.
+Print Assumptions seek_next_embedded_refuted.
